@@ -125,6 +125,10 @@ theorem effective_eq_merge_of_files :
 theorem bank_list_is_concatenation_count :
     (Gen.bankFiles.map (·.2)).sum = Gen.bankCount := by decide +kernel
 
+/-- No registry file gives a member name twice inside one object: the documents `json.load` delivers
+    (which all theorems here are about) contain everything the files' texts name. -/
+theorem live_no_duplicate_members : Gen.duplicateMembers = [] := by decide
+
 /-- The files the code expands (it goes by the file name: stem ending in `v2`) are exactly the files
     whose document has the compact v2 shape. -/
 theorem v2_files : Gen.bankFileShapes.all (fun f => isV2 f.1 == f.2) = true := by
